@@ -147,10 +147,18 @@ Fixpoint derivative_ok (S : Q) (pts : list tpoint) : bool :=
   | _ => true
   end.
 
+(* the case lies in the domain of C08_handed_equiv_configured (so the model's two sides agree by the
+   theorem, and the comparison below is a comparison of the real plug-in with the configured problem) *)
+Definition in_domain (k : case) : bool :=
+  wf_problemb (k_problem k) && forallb (fun t => wf_pointb (k_problem k) (t_c t) (t_x t)) (k_points k).
+
 Definition check_case (k : case) : bool :=
   match construct (k_problem k), k_obs k with
   | None, None => true
   | Some h, Some o =>
+      in_domain k &&
+      forallb (fun t => Bool.eqb (handed_feasible h (t_c t) (t_x t)) (config_feasible (k_problem k) (t_c t) (t_x t)))
+              (k_points k) &&
       structure_ok (k_problem k) h o &&
       forallb (point_model_ok (k_S k) h) (k_points k) &&
       forallb (point_property_ok (k_problem k) o) (k_points k) &&
